@@ -265,11 +265,20 @@ pub fn generated_case(seed: u64, idx: u64) -> Case {
     let png = encode_png(w + ox, h + oy, &gen_pixels(w + ox, h + oy, &mut rng));
     let mut steps = vec![Step::new(vec![s("truanm"), s("compile"), s("-g"), s(game), s("gen.spec"), s("-i"), s("gen"), s("-o"), s("orig.anm")])];
     steps.extend(roundtrip_steps("orig.anm", game));
+    let mut inputs = vec![Input::tree("map/"), Input::text("gen.spec", &gen_spec(format, ox, oy, entries)), Input::bytes(&format!("gen/{}", PATH), png)];
+    // initial-state variation: the extraction directory may already hold a stale image at the same
+    // path (must be replaced), or unrelated files
+    let stale = rng.below(5);
+    if stale == 0 {
+        inputs.push(Input::bytes(&format!("ext/{}", PATH), encode_png(w + ox + 1, h + oy, &gen_pixels(w + ox + 1, h + oy, &mut rng))));
+    } else if stale == 1 {
+        inputs.push(Input::text("ext/unrelated.txt", "stale"));
+    }
     Case {
         property: "C17".into(),
         oracle: "extract-roundtrip".into(),
-        name: format!("generated#{} {} fmt={} {}x{}+{}+{} entries={}", idx, game, format, w, h, ox, oy, entries),
-        inputs: vec![Input::tree("map/"), Input::text("gen.spec", &gen_spec(format, ox, oy, entries)), Input::bytes(&format!("gen/{}", PATH), png)],
+        name: format!("generated#{} {} fmt={} {}x{}+{}+{} entries={} stale={}", idx, game, format, w, h, ox, oy, entries, stale),
+        inputs,
         steps,
         meta: json!({"first": 1, "item": "generated"}),
     }
@@ -299,10 +308,20 @@ pub fn multisource_cases(seed: u64, n: u64) -> Vec<Case> {
             }
         }
         let supplier = order.iter().rev().find(|x| ["dirA", "dirB", "srcC.anm"].contains(x)).cloned();
-        let mut multi = vec![s("truanm"), s("compile"), s("-g"), s(game), s("gen.spec")];
-        // sources may also come from `#pragma image_source` lines in the script (which precede CLI ones);
-        // here: CLI only, in order
-        for o in &order {
+        // the first n_pragma sources of the ordering are given as `#pragma image_source` lines in a copy
+        // of the script (sources named in the file precede the ones on the command line), the rest by -i
+        let n_pragma = if rng.chance(1, 3) { rng.below(order.len() as u64 + 1) as usize } else { 0 };
+        let spec_name = if n_pragma > 0 { "multi.spec" } else { "gen.spec" };
+        if n_pragma > 0 {
+            let body = match &inputs[1].base {
+                crate::case::Base::Text(t) => t.clone(),
+                _ => String::new(),
+            };
+            let pragmas: String = order[..n_pragma].iter().map(|o| format!("#pragma image_source \"{}\"\n", o)).collect();
+            inputs.push(Input::text("multi.spec", &format!("{}{}", pragmas, body)));
+        }
+        let mut multi = vec![s("truanm"), s("compile"), s("-g"), s(game), s(spec_name)];
+        for o in &order[n_pragma..] {
             multi.push(s("-i"));
             multi.push(s(o));
         }
@@ -313,7 +332,7 @@ pub fn multisource_cases(seed: u64, n: u64) -> Vec<Case> {
             Some(sup) => steps.push(Step::new(vec![s("truanm"), s("compile"), s("-g"), s(game), s("gen.spec"), s("-i"), s(sup), s("-o"), s("model.anm")])),
             None => meta["expect_fail"] = json!(true),
         }
-        out.push(Case { property: "C17".into(), oracle: "multisource".into(), name: format!("multisource#{} fmt={} {}x{} order={:?}", idx, format, w, h, order), inputs, steps, meta });
+        out.push(Case { property: "C17".into(), oracle: "multisource".into(), name: format!("multisource#{} fmt={} {}x{} order={:?} pragmas={}", idx, format, w, h, order, n_pragma), inputs, steps, meta });
     }
     out
 }
